@@ -605,6 +605,12 @@ func (p *Path) prepareCall(fr *frame, call *ssa.CallCommon, pos token.Pos) (Valu
 			}
 			p.goPanic(fr, pos, "nil pointer dereference (method "+call.Method.Name()+" on nil interface)")
 		}
+		if ov, isOp := recv.V.(OpaqueV); isOp && recv.T == p.E.opaqueErrT && ov.Kind == "logger" && call.Signature().Results().Len() == 0 {
+			// methods of the no-op logger (Trace/Debug/Info/Warn/Error/Crit): nothing happens
+			p.stub("package idena-go/log => no-op")
+			fn = &FuncV{Builtin: "zero", Data: []Value{Zero(call.Signature().Results())}}
+			return fn, nil
+		}
 		if recv.T == p.E.opaqueErrT {
 			fn = &FuncV{Builtin: "opaque:" + call.Method.Name(), Data: []Value{recv.V}}
 		} else {
